@@ -292,6 +292,17 @@ defop("pack_int", lambda ns, x, m: ns.pk.PackIntMod(m).pack(x), ["I", "i"],
       lambda a, cfg, ts: 0 <= a[0] < a[1], weight=0.3, params={1: ("k", 1, 20)})
 
 
+# the plain result of one @snark call (here simply x.val()) handed to the next @snark call, as in `x = step(x)` in a loop: the
+# second call converts its argument by its Python type, so the type a value is read back with is part of the circuit's shape
+defop("snark_chain", lambda ns, x: (ns.rt.snark(lambda a: a * a - 1)(x.val()), None)[1], ["IBF"], weight=0.3)
+
+
+# a value assembled from raw integer wires (from_bits and PackIntMod.unpack take LinCombs as well as LinCombBools) and decomposed again
+defop("frombits_tobits", lambda ns, a, b, c: ns.rt.LinComb.from_bits([a, b, c]).to_bits(4), ["I", "I", "I"], weight=0.15)
+defop("frombits_shift", lambda ns, a, b, c: ns.rt.LinComb.from_bits([a, b, c]) >> 1, ["I", "I", "I"], weight=0.15)
+defop("unpack_pack", lambda ns, a, b, c: ns.pk.PackIntMod(8).pack(ns.pk.PackIntMod(8).unpack([a, b, c], 0)), ["I", "I", "I"], weight=0.15)
+
+
 # unpacking bits that are already wires (pack.py: "lincomb in"): a single flag, a seed-like run of flags, a mixed record
 defop("unpack_bool", lambda ns, x: ns.pk.PackBool().unpack([x], 0), ["IB"], weight=0.2)
 defop("unpack_flags", lambda ns, a, b, c: ns.pk.PackRepeat(ns.pk.PackBool(), 3).unpack([a, b, c], 0), ["IB", "IB", "IB"], weight=0.2)
